@@ -28,6 +28,8 @@ THEOREMS = {
     "C14": ["fit_binarizer_once", "partialFit_binarizer_once", "binarize_spec", "binarize_noop_ctxBin", "np_binarize_once",
             "addArm_new_binarizer", "tree_binarizer_twice_counterexample"],
     "C17": ["rejected_noop", "train_rejected_noop", "query_rejected_noop", "rejected_then_continue"],
+    "C20": ["fit_perm", "partialFit_perm", "fitRec_perm", "rowsOf_perm", "shift_greedy", "shift_ucb", "shift_softmax_invariant",
+            "addXty_scale", "gram_ignores_rewards", "listMax_shift"],
 }
 
 IMPORTS = {
@@ -45,6 +47,7 @@ IMPORTS = {
     "C13": ["MabModel.Props.C13"],
     "C14": ["MabModel.Props.C14"],
     "C17": ["MabModel.Props.C17"],
+    "C20": ["MabModel.Props.C20"],
 }
 
 
